@@ -1,6 +1,7 @@
 import DimodModel.Bqm
 import DimodModel.PyBqm
 import DimodModel.BqmScaleIgn
+import DimodModel.BqmDense
 import DimodModel.Wire
 open Wire
 
@@ -11,6 +12,7 @@ open Wire
     "rd"        → all readers of the model (see `showReaders`)
     via "sci" scalar IV II IO  → `scale(scalar, ignored_variables, ignored_interactions, ignore_offset)` (`Bqm.vScaleIgnoring`)
     via "nz" lmin lmax qmin qmax IV II IO → `normalize(...)` with the parsed ranges (`Bqm.vNormalize`)
+    "d" "aqdc" k dense → `add_quadratic_from_dense` as coded, with its `is_linear()` fast path (`Bqm.addQuadraticFromDenseCoded`)
         IV ::= "N" (None) | "-" (empty) | label,…     II ::= "N" | "-" | label~label,…     IO ::= "0" | "1"
     dict back-end (`PyB`, a second state): "pnew" VT | "pload" VT offset rows | "p" op args…   (data-level primitives only)
     answer ::= ("ok"|"err") " " VT;offset;label>key=bias&key=bias…;…   (dict order) | "unsupported" -/
@@ -187,6 +189,11 @@ def step (m : Bqm) (line : String) : Bqm × String :=
       let r := m.vNormalize (via.tv m) via.isView (l0, l1) (q0, q1) iv ii (io == "1")
       reply (r.1.1, r.2)
     | _, _, _, _, _, _, _ => bad
+  | ["d", "aqdc", k, xs] =>
+    -- `add_quadratic_from_dense` with the branch on `is_linear()` as coded (`Bqm.addQuadraticFromDenseCoded`)
+    match k.toNat?, (csv xs).mapM parseRat? with
+    | some k, some d => reply (m.addQuadraticFromDenseCoded k d)
+    | _, _ => bad
   | v :: rest =>
     match via? v, parseOp rest with
     | some via, some op => reply (m.step via op)
